@@ -190,6 +190,21 @@ CLAIMED = {
              "correspondence only.",
         technique="Coq proof (container laws, union theorem, equality via printed line) + differential correspondence; JSON relative to an oracle",
         design="4 (C17)"),
+    "C18": dict(
+        text="Coq theorems (Properties/C18.v, 12 statements, closed under the global context): len = end-start+1 (also on the "
+             "expression regenerated from Feature.__len__); sequence() is exactly bases start..end of the record (index-wise), "
+             "its length equals len(feature) on either strand, it is the plain slice unless use_strand and strand '-', where it is "
+             "the reverse complement (involutive on ACGTN); bed12 = the twelve stated fields (chromStart=start-1, chromEnd=end, "
+             "block sizes = lengths, block starts relative to chromStart with first 0 and last block ending at chromEnd, thick "
+             "bounds from first/last thick feature) and Err ValueError when the blocks do not span the feature; to_bed12 "
+             "likewise. bed12 by id = bed12 by Feature, thin mode, custom block types, colours and pyfaidx itself are decided by "
+             "the correspondence (~2k cases per quick run incl. transcripts whose children are written in descending or "
+             "shuffled file order).",
+        note="Trusted: Coq kernel + vm_compute; Model/Bed.v hand-written, tied by the correspondence; pyfaidx is modelled as "
+             "record[start-1:stop] plus an ACGTN complement table (oracle instance), IUPAC codes and out-of-range slices are out "
+             "of domain; children with equal starts (unordered in SQL) are not generated.",
+        technique="Coq proof (slice/length arithmetic, BED12 field theorems) + differential correspondence incl. pyfaidx",
+        design="4 (C18)"),
 }
 
 PENDING_REASON = "machinery for this property is not built yet in this revision (planned, see DESIGN.md section 4/9); not claimed until its check exists"
